@@ -778,7 +778,7 @@ func xhRun(k xhCase) string {
 	// warm-up exchange on the same connection: the upstream connection exists and answers
 	atomic.StoreInt32(&up.mode, 0)
 	warm := false
-	for try := 0; try < 6 && !warm; try++ {
+	for try := 0; try < 4 && !warm; try++ {
 		wid := uint64(0x7e000000 + try)
 		n0 := cl.count()
 		cl.c.Write(xhRequest(k.codec, wid, xhSvc(k.codec, "ok"), "tw"))
@@ -957,14 +957,18 @@ func RunXH(c *hx.Ctx, prop string) {
 		}
 	}
 	seen := map[string]bool{}
+	disturbed := 0
 	for _, k := range cases {
+		if disturbed >= 3 {
+			break
+		}
 		line := k.line()
 		if seen[line] {
 			continue
 		}
 		seen[line] = true
 		out := ""
-		for try := 0; try < 4 && out == ""; try++ {
+		for try := 0; try < 3 && out == ""; try++ {
 			msg, panicked := hx.Safe(func() { out = xhRun(k) })
 			if panicked {
 				out = "panic=" + hx.Tok(msg)
@@ -975,8 +979,12 @@ func RunXH(c *hx.Ctx, prop string) {
 			}
 		}
 		if out == "" {
-			c.Count("xh.dropped")
-			continue
+			// never a silent drop: three runs in which the control exchange (a plain request the upstream answers) did not come
+			// back with its id is an observation — the predicate rejects it. After three such cases the kind stops (a tree in
+			// which nothing is answered any more would otherwise cost minutes).
+			c.Count("xh.disturbed")
+			disturbed++
+			out = "disturbed"
 		}
 		c.Count("xh." + k.codec + "." + k.cause + "." + k.kind)
 		c.Emit(prop, line, out)
